@@ -69,6 +69,13 @@ def check_g4(pid, tier):
         for dn in ("nocopy_list", "nocopy_dict", "nocopy_both"):
             payloads += [(pid, t, dn, "enc") for t in types if any(k in t for k in ("List", "list", "Dict", "dict", "Sequence", "Mapping"))][: (40 if tier == "quick" else 100000)]
     results = runner.run_pool(g4.g4_task, payloads, chunks=2)
+    if pid == "C02":
+        # format-dialect clause: orjson / msgpack / TOML leave exactly their declared natives unconverted
+        # (eager, lazy and postponed compilation must agree)
+        from . import g7
+
+        fpts = [g7.FPoint(m, mode, False, fs) for m in ("orjson", "msgpack", "toml") for mode in ("eager", "lazy", "postponed") for fs in ("native", "native2")]
+        results += runner.run_pool(g7.g7_task, [(pid, p) for p in fpts], chunks=1)
     obs, crashes, trusted = _collect(results)
     what = "REF_ENC" if pid == "C02" else "REF_DEC"
     return runner.finish(
@@ -116,7 +123,14 @@ def check_c18(pid, tier):
     # (dataclass elements under a codec default dialect are compiled for that dialect: C13's subject)
     cod = [(pid, t, dn) for dn in g4.DIALECTS for t in (types[:24] if tier == "quick" else types) if dn == "default" or "D1" not in t]
     res2 = runner.run_pool(g4.codec_task, cod, chunks=2)
-    obs, crashes, trusted = _collect(res1 + res2)
+    # format mixins carry no_copy_collections = (list, dict); with dialect support the per-format caches
+    # keep a unit compiled under one format's dialect from serving another format
+    from . import g7
+
+    fpts = [g7.FPoint(m, "eager", ds, fs, False, cd) for m in ("dict", "orjson", "msgpack", "toml") for ds in (False, True) for fs in ("native",)
+            for cd in (("none", "options") if ds else ("none",))]
+    res3 = runner.run_pool(g7.g7_task, [(pid, p) for p in fpts], chunks=1)
+    obs, crashes, trusted = _collect(res1 + res2 + res3)
     return runner.finish(
         pid, tier, obs, t0,
         technique="ownership judgement inside the REF equality (fresh copy vs the input object itself; aliasing is accepted only where REF_ENC under no_copy_collections returns the input) on the harvested code of every container template, plus syntactic frame obligations (no store into / mutating call on anything reached from a parameter) on every generated function; z3",
@@ -152,6 +166,9 @@ def check_c15(pid, tier):
             upts.append(p)
     res1 = runner.run_pool(g1.g1_task, [(pid, p) for p in upts], chunks=4)
     obs, crashes, trusted = _collect(res1 + res2)
+    from . import units
+
+    obs += units.verify_oneshot(pid)
     return runner.finish(
         pid, tier, obs, t0,
         technique="relational claims via a shared reference term: the codec encode/decode unit of T, the unit for List[T] (elementwise), the mixin method and the holder function of a plain dataclass are each proved equal to the same REF_ENC/REF_DEC/FROM_SPEC (pysym + z3), hence to each other; slot (frame) obligations on every module-level statement of the harvested texts",
@@ -243,7 +260,13 @@ def check_c20(pid, tier):
     return c06.check20(pid, tier)
 
 
-CHECKS = {"C20": check_c20, "C06": check_c06, "C16": check_c16, "C12": check_c12, "C19": check_c19, "C11": check_c11, "C10": check_c10, "C04": check_g7, "C13": check_g7, "C14": check_g7, "C17": check_c17, "C15": check_c15, "C18": check_c18, "C02": check_g4, "C03": check_g4, "C05": check_g1, "C07": check_g1, "C09": check_g1, "C08": check_g2}
+def check_c01(pid, tier):
+    from . import c01
+
+    return c01.check(pid, tier)
+
+
+CHECKS = {"C01": check_c01, "C20": check_c20, "C06": check_c06, "C16": check_c16, "C12": check_c12, "C19": check_c19, "C11": check_c11, "C10": check_c10, "C04": check_g7, "C13": check_g7, "C14": check_g7, "C17": check_c17, "C15": check_c15, "C18": check_c18, "C02": check_g4, "C03": check_g4, "C05": check_g1, "C07": check_g1, "C09": check_g1, "C08": check_g2}
 
 
 def main(argv):
